@@ -44,7 +44,7 @@ for f in sorted(os.listdir(os.path.join(V, 'kani'))):
                          expect='known-finding' if re.match(r'c\d\d_kf_', name) else None)
 # measured verdicts/timings (./verif expect-update): a harness that did not close there is not registered;
 # one that needs more than QUICK_MAX seconds of CBMC is moved to the thorough tier whatever its comment says.
-QUICK_MAX = 120
+QUICK_MAX = 250
 ep = os.path.join(V, 'lib', 'expected.json')
 exp = json.load(open(ep)) if os.path.exists(ep) else {}
 dropped = []
@@ -55,8 +55,8 @@ if '--all' not in sys.argv:
             dropped.append(name)
             del idx[name]
             continue
-        if e.get('seconds', 0) > QUICK_MAX and idx[name]['tier'] == 'quick':
-            idx[name]['tier'] = 'thorough'
+        # the measured CBMC time decides the tier (the TIER comment of the author is only a default)
+        idx[name]['tier'] = 'quick' if e.get('seconds', 0) <= QUICK_MAX else 'thorough'
         idx[name]['seconds'] = e.get('seconds')
 if dropped:
     print('not registered (no closing run recorded in expected.json):', ', '.join(sorted(dropped)), file=sys.stderr)
